@@ -12,7 +12,7 @@ import ast
 import re
 
 from ..model import dotted, unparse, norm, walk_no_nested, loop_exits, loop_of
-from ..rulelib import Ctx, nodes_calling, reaching_defs, value_assigned, short
+from ..rulelib import Ctx, nodes_calling, reaching_defs, value_assigned, short, ValueNumbers
 from .c05 import _yields
 
 try:
@@ -323,16 +323,14 @@ def run(check):
       rhs = unparse(t.comparators[0]).replace(' ', '')
       rd_ok = False
       if isinstance(t.ops[0], ast.Gt):
-        # rhs must be MAX_AGGREGATION_INTERVALS + 2
-        names = {x.id for x in ast.walk(t.comparators[0]) if isinstance(x, ast.Name)}
-        src = rhs
-        for nm in names:
-          for d in reaching_defs(g, nm, n):
-            if d is not g.entry:
-              v = value_assigned(d, nm)
-              if isinstance(v, ast.AST):
-                src = src.replace(nm, unparse(v).replace(' ', ''))
-        rd_ok = 'MAX_AGGREGATION_INTERVALS' in src and src.endswith('+2')
+        # rhs must be MAX_AGGREGATION_INTERVALS + 2 (as a value: locals are followed to what they hold)
+        vn_cv = ValueNumbers(cx, cv)
+        rt = vn_cv.term(t.comparators[0], n)
+
+        def is_setting(x):
+          return isinstance(x, tuple) and x[0] in ('sub', 'attr') and x[-1] == 'MAX_AGGREGATION_INTERVALS'
+        rd_ok = isinstance(rt, tuple) and rt[0] == 'binop' and rt[1] == 'Add' and (
+          (is_setting(rt[2]) and rt[3] == ('const', 2)) or (is_setting(rt[3]) and rt[2] == ('const', 2)))
       if rd_ok and g.exit not in g.reach([g.entry], removed_nodes={n}, normal_only=True):
         okb = True
         r_p.ok('every flush tests len(interval_buffers) > MAX_AGGREGATION_INTERVALS + 2', cv.loc(t))
@@ -506,6 +504,12 @@ def run(check):
         tpl = v.left.value.replace('%s', 'X')
       elif isinstance(v, ast.Constant):
         tpl = v.value
+      elif isinstance(v, ast.Call) and isinstance(v.func, ast.Attribute) and v.func.attr == 'format' and \
+          isinstance(v.func.value, ast.Constant) and isinstance(v.func.value.value, str):
+        # a literal '{' of the template is written '{{'; replacement fields stand for pieces of the pattern part
+        tpl = re.sub(r'\{[^{}]*\}', 'X', v.func.value.value.replace('{{', '\x00').replace('}}', '\x01')).replace('\x00', '{').replace('\x01', '}')
+      elif isinstance(v, ast.JoinedStr):
+        tpl = ''.join(x.value if isinstance(x, ast.Constant) else 'X' for x in v.values)
       elif isinstance(v, ast.Call) and isinstance(v.func, ast.Attribute) and v.func.attr == 'replace' and len(v.args) == 2 and \
           isinstance(v.args[1], ast.Constant):
         tpl = v.args[1].value
